@@ -1,7 +1,8 @@
 //! C25 — ObjectManager signals track the managed object set.
 //!
 //! Histories over C24's alphabet plus at/remove of `zbus::fdo::ObjectManager` at {/, /a}, every
-//! transition executed on a real p2p connection pair. A client-side collector (a `MessageStream`
+//! transition executed on a real p2p connection pair; the same tree again over C24's second path
+//! universe {/, /a, /a/b/d, /a/bc} with one ordinary interface. A client-side collector (a `MessageStream`
 //! with a match rule for org.freedesktop.DBus.ObjectManager signals) is drained after every step;
 //! per manager path a mirror starts from `GetManagedObjects` taken when the manager first answers
 //! and is then updated only from that manager's InterfacesAdded/InterfacesRemoved signals.
@@ -350,7 +351,7 @@ fn shadowed(m: usize, path: &str, present: &[bool]) -> bool {
 
 fn check(history: &[Op], pre: &After, mirror_pre: &[Option<Listing>], ret: &OpRet, post: &After, mirror_post: &[Option<Listing>]) -> (Vec<Violation>, String) {
     let mut out = vec![];
-    let replay = json!({"history": history_json(history)});
+    let replay = json!({"history": history_json(history), "path_universe": osrv::selected_paths()});
     let hs = show_history(history);
     let op = history.last().cloned();
     let kind = op.map(|o| o.kind()).unwrap_or("init");
@@ -512,6 +513,15 @@ pub fn main(args: &Args) -> i32 {
     let states: Mutex<HashSet<u64>> = Mutex::new(HashSet::new());
     let sink = osrv::VioSink::default();
     let (transitions, histories, dead, failed_last) = (AtomicU64::new(0), AtomicU64::new(0), AtomicU64::new(0), AtomicU64::new(0));
+    // Two path universes (see osrv::PATH_SETS): the first with the full alphabet; the second
+    // ({/, /a, /a/b/d, /a/bc}: a managed object two levels below another with an unregistered
+    // node in between, a prefix-named sibling) with one ordinary interface. The manager paths
+    // / and /a have the same indices in both.
+    let alpha1: Vec<Op> = alpha.iter().copied().filter(|o| !matches!(o, Op::At { i: 1, .. } | Op::Remove { i: 1, .. })).collect();
+    let mut second = json!(null);
+    for (universe, alpha, depth) in [(0usize, alpha.clone(), depth), (1usize, alpha1, depth)] {
+    osrv::select_paths(universe);
+    let before = histories.load(Relaxed);
     let total = enumerate::count_strings(alpha.len(), depth);
     osrv::par_items(total, 64, &report, &states, |n, acc| {
         let mut idx = vec![];
@@ -568,6 +578,12 @@ pub fn main(args: &Args) -> i32 {
             }
         }
     });
+    if universe == 1 {
+        second = json!({"paths": osrv::PATH_SETS[1], "alphabet": alpha.iter().map(|o| o.show()).collect::<Vec<_>>(), "full_tree_depth": depth, "full_tree_histories": histories.load(Relaxed) - before});
+    }
+    }
+    osrv::select_paths(0);
+    report.set("second_universe", second);
     report.set("violating_transitions", json!(sink.total()));
     report.set("violating_transitions_by_identity", sink.summary());
     report.set("full_tree_depth", json!(depth));
@@ -589,9 +605,17 @@ pub fn main(args: &Args) -> i32 {
 
 fn replay(path: &str) -> i32 {
     let v = vcommon::load_replay(path);
-    let hist = history_from_json(&v["replay"]["history"])
-        .or_else(|| history_from_json(&v["history"]))
+    if let Some(u) = v["replay"]["path_universe"].as_u64().or(v["path_universe"].as_u64()) {
+        osrv::select_paths(u as usize);
+    }
+    let parse = || history_from_json(&v["replay"]["history"]).or_else(|| history_from_json(&v["history"]));
+    let hist = parse()
+        .or_else(|| {
+            osrv::select_paths(1);
+            parse()
+        })
         .unwrap_or_else(|| vcommon::machinery_failure("replay file has no history"));
+    println!("path universe: {:?}", osrv::PATH_SETS[osrv::selected_paths()]);
     println!("history: {}", show_history(&hist));
     match run_history(&hist, true) {
         Exec::DeadPrefix(k, why) => {
